@@ -204,7 +204,7 @@ def shadow_programs():
     for sname, tpl in sites:
         for ci, cons in enumerate(consumes):
             for pos in ("pre", "post"):
-                for B in ("b", "k", "z"):
+                for B in ("b", "k", "z", "c"):      # c: the binder re-uses the name of the channel the form consumes (legal: it is dead by then)
                     text = head + tpl % {"B": B, "pre": cons if pos == "pre" else "", "post": cons if pos == "post" else ""} + "\n"
                     out.append(("shadow/%s-%d-%s-%s" % (sname, ci, pos, B), text))
     return out
